@@ -75,6 +75,12 @@ func c08Events() []c08Event {
 	ev = append(ev, mk("auth-refuse", resp.B("AUTH"), resp.B(""), resp.B("wrong")))
 	ev = append(ev, mk("auth-refuse", resp.B("AUTH"), resp.B(""), resp.B("")))
 	ev = append(ev, mk("auth-refuse", resp.B("AUTH"), resp.Nil(), resp.B("")))
+	// the password followed by something that is not a bulk string: a two-argument form whose
+	// password is not the password
+	ev = append(ev, mk("auth-refuse", resp.B("AUTH"), resp.B(P), resp.Nil()))
+	ev = append(ev, mk("auth-refuse", resp.B("AUTH"), resp.B(P), resp.I(1)))
+	ev = append(ev, mk("auth-refuse", resp.B("AUTH"), resp.B(P), resp.A()))
+	ev = append(ev, mk("auth-refuse", resp.B("AUTH"), resp.B(P), resp.A(resp.B(P))))
 	// forms the statement does not settle: no expectation on the reply
 	free := []c08Event{
 		mk("auth-free", resp.B("AUTH"), resp.B(""), resp.B(P)),
